@@ -70,6 +70,7 @@ type MapIter struct {
 type pathEnd struct {
 	kind string // "panic", "unsupported", "budget", "infeasible", "assume", "stop"
 	msg  string
+	val  Val // explicit panic(v): the value (for recover)
 }
 
 func (p pathEnd) String() string { return p.kind + ": " + p.msg }
@@ -142,8 +143,11 @@ func isAggType(t types.Type) bool {
 
 func isReflectValue(t types.Type) bool {
 	n, ok := t.(*types.Named)
-	return ok && n.Obj().Pkg() != nil && n.Obj().Pkg().Path() == "reflect" && n.Obj().Name() == "Value"
+	return ok && n.Obj().Pkg() != nil && (n.Obj().Pkg().Path() == "reflect" || n.Obj().Pkg().Path() == "internal/reflectlite") && n.Obj().Name() == "Value"
 }
+
+// NativeFn is a function value implemented by the engine (reflect.Swapper).
+type NativeFn func(e *Engine, args []Val) Val
 
 func fieldVars(st *types.Struct) []*types.Var {
 	v := make([]*types.Var, st.NumFields())
